@@ -104,7 +104,7 @@ func check(c Case) error {
 		return fmt.Errorf("output does not parse: %v\n%s", err, desc())
 	}
 	got := observed(forest, st.ignore)
-	if w, g := outline(want), outline(got); w != g {
+	if w, g := "ROOT["+st.rootText+"] "+outline(want), "ROOT["+rootText(forest)+"] "+outline(got); w != g {
 		return fmt.Errorf("rendered markers differ from the chain model\nwant %s\ngot  %s\n%s\noutput %q", w, g, desc(), out)
 	}
 	return nil
@@ -137,6 +137,10 @@ func classify(c Case) (bool, []string) {
 	add(st.sibBefore, "sibling-before")
 	add(st.sibAfter, "sibling-after")
 	add(st.loopEmpty, "empty-loop")
+	add(st.texts > 0, "text-sibling")
+	add(st.itexts > 0, "interpolated-text-sibling")
+	add(st.textAfterChain, "text-directly-after-chain")
+	add(st.textAfterFalseIf, "text-directly-after-chain-with-falsy-v-if")
 	add(c.Form != "", "global-operands:"+c.Form)
 	add(c.Items != "" && (st.inLoop || st.slotted > 0), "loop-items:"+c.Items)
 	add(st.shadowed, "cond-on-loop-var-shadowing-global")
